@@ -51,6 +51,7 @@ type inst struct {
 	cmp     fsx.FS   // where read-only calls are mirrored (the base, or its Sub view)
 	rro     *fsx.Runner
 	rcmp    *fsx.Runner
+	rbase   *fsx.Runner // "Base:" steps: the owner of the base changes it directly
 	roots   []string
 	before  fsx.Snap
 	cmpOpen map[int]bool
@@ -132,6 +133,18 @@ func (in *inst) snap() fsx.Snap {
 
 func (in *inst) step(c *vt.Ctx, o fsx.Op) *vt.Deviation {
 	c.Eval(1)
+	if strings.HasPrefix(o.K, "Base:") {
+		// not a call through the read-only file system: the base changes under it, and what is
+		// read through the wrapper afterwards must be the new state
+		b := o
+		b.K = strings.TrimPrefix(o.K, "Base:")
+		if in.rbase == nil {
+			in.rbase = fsx.NewRunner(in.x)
+		}
+		_ = in.rbase.Do(fsx.Retarget(b, in.win))
+		in.before = in.snap()
+		return nil
+	}
 	o = fsx.Retarget(o, in.win)
 	out := in.rro.Do(o)
 	mk := func(clause, detail string) *vt.Deviation {
@@ -265,7 +278,7 @@ func TestCheck(t *testing.T) {
 		kind := kind
 		mem := strings.HasPrefix(kind, "MemFS")
 		win := strings.HasSuffix(kind, "-win")
-		cfg := gen.Config{Symlinks: mem, Root: mem, Base: "/w", NoChown: false, NoTmp: win}
+		cfg := gen.Config{Symlinks: mem, LinkCalls: true, Root: mem, Base: "/w", NoChown: false, NoTmp: win}
 		trees := cfg.StartTrees()
 		var tn []string
 		for n := range trees {
@@ -301,6 +314,38 @@ func TestCheck(t *testing.T) {
 				}
 			}
 		}
+		// handle life cycles: every read-only handle call before and after the base changed under the
+		// handle, twice in a row, and after Close - a wrapper handle has no state of its own to answer from
+		{
+			dirfile := trees["dirfile"]
+			muts := [][]fsx.Op{nil, {{K: "Base:WriteFile", P: "/w/a/b", Data: "0123456789", Perm: 0o644}}, {{K: "Base:Truncate", P: "/w/a/b", Size: 1}}, {{K: "Base:Chmod", P: "/w/a/b", Perm: 0o600}, {K: "Base:Chmod", P: "/w/a", Perm: 0o700}},
+				{{K: "Base:WriteFile", P: "/w/a/c", Data: "new", Perm: 0o644}}, {{K: "Base:Remove", P: "/w/a/b"}}, {{K: "Base:Rename", P: "/w/a", P2: "/w/z"}}}
+			xs := []fsx.Op{{K: "FRead", H: 0, N: 1}, {K: "FReadAt", H: 0, N: 8, Off: 0}, {K: "FSeek", H: 0, Off: 0, Whence: 1}, {K: "FSeek", H: 0, Off: 0, Whence: 2}, {K: "FStat", H: 0},
+				{K: "FReadDir", H: 0, N: -1}, {K: "FReaddirnames", H: 0, N: -1}, {K: "FName", H: 0}}
+			n := 0
+			for _, target := range []string{"/w/a/b", "/w/a"} {
+				for _, x := range xs {
+					for _, m := range muts {
+						idx++
+						if idx%c.NShards != c.Shard {
+							continue
+						}
+						ops := []fsx.Op{{K: "Open", P: target, Flag: os.O_RDONLY, H: 0}, x}
+						ops = append(ops, m...)
+						ops = append(ops, x, x, fsx.Op{K: "FClose", H: 0}, x, x)
+						cs := Case{FS: kind, Prefix: dirfile, Ops: ops}
+						n++
+						if dev := run(c, cs); dev != nil {
+							c.Report(dev, cs)
+						}
+						if m != nil {
+							c.NonTrivial(vt.Hash64(kind, "lifecycle", target, x.String(), m[0].String()))
+						}
+					}
+				}
+			}
+			c.Extra("handle_lifecycles_"+kind, fmt.Sprintf("%d cases (this shard): open, call, [base changes], call twice, Close, call twice - over 2 handle kinds x %d read-only handle calls x %d base changes", n, len(xs), len(muts)))
+		}
 		ncases := c.Pick(6000, 80000)
 		if win {
 			ncases = c.Pick(2500, 30000)
@@ -322,7 +367,14 @@ func TestCheck(t *testing.T) {
 			opened := map[int]bool{}
 			for n := rapid.IntRange(1, 30).Draw(t, "n"); n > 0; n-- {
 				var ops []fsx.Op
-				switch rapid.IntRange(0, 3).Draw(t, "what") {
+				switch rapid.IntRange(0, 4).Draw(t, "what") {
+				case 4: // the owner of the base changes it directly
+					bcfg := cfg
+					bcfg.NoChdir, bcfg.NoTemp = true, true
+					for _, o := range bcfg.Draw(t) {
+						o.K = "Base:" + o.K
+						ops = append(ops, o)
+					}
 				case 0: // open a handle read-only and keep it
 					h := rapid.IntRange(0, 1).Draw(t, "h")
 					p := rapid.SampledFrom(vcfg.Paths()).Draw(t, "p")
@@ -347,6 +399,9 @@ func TestCheck(t *testing.T) {
 					c.Label("op:" + o.K)
 					if dev := in.step(c, o); dev != nil {
 						return &vt.Failure{Dev: dev, Replay: cs}
+					}
+					if strings.HasPrefix(o.K, "Base:") {
+						continue
 					}
 					if isMutating(o) && (strings.HasPrefix(o.K, "F") || view != "") {
 						indirectMut = true
